@@ -196,13 +196,14 @@ make_IdentitiesOf(const py::handle& m, const std::string& name) {
         py::object cupy_unowned_mem =
             py::module::import("cupy").attr("cuda").attr("UnownedMemory")(
                 reinterpret_cast<ssize_t>(cuda_identities_of->ptr().get()),
-                cuda_identities_of->length() * sizeof(T),
+                (cuda_identities_of->offset()
+                 + cuda_identities_of->length() * cuda_identities_of->width()) * sizeof(T),
                 cuda_identities_of);
 
         py::object cupy_memoryptr =
             py::module::import("cupy").attr("cuda").attr("MemoryPointer")(
                 cupy_unowned_mem,
-                0);
+                cuda_identities_of->offset() * sizeof(T));
 
         return py::module::import("cupy").attr("ndarray")(
                 pybind11::make_tuple(py::cast(cuda_identities->length())),
